@@ -382,6 +382,11 @@ class HomeKitConnection:
             await self._connector
         except asyncio.CancelledError:
             pass
+        except HomeKitException:
+            # The connector already finished with an error (for example an
+            # AuthenticationError). It was reported via last_connector_error
+            # and must not prevent the connection from being closed.
+            pass
 
     async def get(self, target: str) -> HttpResponse:
         """
